@@ -290,6 +290,45 @@ class ModuleInfo:
         return self is o
 
 
+_NODEFAULT = object()
+# (parameter, default) in positional order; _NODEFAULT = required.  Only what the analysed code uses.
+LIB_SIGNATURES = {
+    "numpy.unique": [("ar", _NODEFAULT), ("return_index", False), ("return_inverse", False), ("return_counts", False), ("axis", None)],
+    "numpy.round": [("a", _NODEFAULT), ("decimals", 0)],
+    "numpy.around": [("a", _NODEFAULT), ("decimals", 0)],
+    "numpy.linalg.norm": [("x", _NODEFAULT), ("ord", None), ("axis", None), ("keepdims", False)],
+    "numpy.sort": [("a", _NODEFAULT), ("axis", -1)],
+    "numpy.argsort": [("a", _NODEFAULT), ("axis", -1)],
+    "numpy.tile": [("A", _NODEFAULT), ("reps", _NODEFAULT)],
+    "numpy.repeat": [("a", _NODEFAULT), ("repeats", _NODEFAULT), ("axis", None)],
+    "numpy.sum": [("a", _NODEFAULT), ("axis", None)],
+    "numpy.min": [("a", _NODEFAULT), ("axis", None)],
+    "numpy.max": [("a", _NODEFAULT), ("axis", None)],
+    "numpy.mean": [("a", _NODEFAULT), ("axis", None)],
+    "numpy.argmin": [("a", _NODEFAULT), ("axis", None)],
+    "numpy.argmax": [("a", _NODEFAULT), ("axis", None)],
+    "numpy.concatenate": [("arrays", _NODEFAULT), ("axis", 0)],
+    "numpy.diag": [("v", _NODEFAULT), ("k", 0)],
+    "numpy.clip": [("a", _NODEFAULT), ("a_min", _NODEFAULT), ("a_max", _NODEFAULT)],
+    "numpy.where": [("condition", _NODEFAULT), ("x", _NODEFAULT), ("y", _NODEFAULT)],
+    "numpy.isclose": [("a", _NODEFAULT), ("b", _NODEFAULT), ("rtol", 1e-05), ("atol", 1e-08), ("equal_nan", False)],
+    "numpy.allclose": [("a", _NODEFAULT), ("b", _NODEFAULT), ("rtol", 1e-05), ("atol", 1e-08), ("equal_nan", False)],
+    "numpy.cross": [("a", _NODEFAULT), ("b", _NODEFAULT)],
+    "numpy.dot": [("a", _NODEFAULT), ("b", _NODEFAULT)],
+    "numpy.matmul": [("x1", _NODEFAULT), ("x2", _NODEFAULT)],
+    "numpy.multiply": [("x1", _NODEFAULT), ("x2", _NODEFAULT)],
+    "numpy.divide": [("x1", _NODEFAULT), ("x2", _NODEFAULT)],
+    "numpy.linspace": [("start", _NODEFAULT), ("stop", _NODEFAULT), ("num", 50)],
+    "numpy.full": [("shape", _NODEFAULT), ("fill_value", _NODEFAULT)],
+    "numpy.nonzero": [("a", _NODEFAULT)],
+    "numpy.reciprocal": [("x", _NODEFAULT)],
+    "numpy.array": [("object", _NODEFAULT)],
+    "numpy.asarray": [("a", _NODEFAULT)],
+    "numpy.linalg.inv": [("a", _NODEFAULT)],
+    "scipy.sparse.diags": [("diagonals", _NODEFAULT), ("offsets", 0)],
+}
+
+
 class Repo:
     def __init__(self, root: str = None):
         self.root = root or REPO
@@ -340,6 +379,31 @@ class Repo:
                 except Exception:
                     r = None
                 if not (r and r[0] == "func" and r[1].cls is None):
+                    # library functions with a known signature: explicit defaults are dropped, leading keywords become positional
+                    try:
+                        d_ = self.dotted_of(m, node.func)
+                    except Exception:
+                        d_ = None
+                    sig = LIB_SIGNATURES.get(d_ or "")
+                    if sig is not None:
+                        params = [p_ for p_, _ in sig]
+                        dflt = dict(sig)
+                        kws = []
+                        for k in node.keywords:
+                            dv = dflt.get(k.arg, _NODEFAULT)
+                            if dv is not _NODEFAULT and isinstance(k.value, ast.Constant) and k.value.value == dv and type(k.value.value) is type(dv):
+                                changed = True
+                                continue            # spelled-out default
+                            kws.append(k)
+                        kw = {k.arg: k for k in kws}
+                        pos = list(node.args)
+                        # required parameters become positional; optional ones stay keywords (the form the rules read)
+                        while len(pos) < len(params) and params[len(pos)] in kw and dflt[params[len(pos)]] is _NODEFAULT:
+                            pos.append(kw.pop(params[len(pos)]).value)
+                        if len(pos) != len(node.args) or len(kws) != len(node.keywords):
+                            node.args = pos
+                            node.keywords = [k for k in kws if k.arg in kw]
+                            changed = True
                     continue
                 a = r[1].node.args
                 if a.vararg is not None or a.posonlyargs:
